@@ -75,8 +75,8 @@ def concretise(hist, unit=1, maxwin_m=8, cfg=None, rng=None, variety=True):
             steps.append({"op": "cont", "sid": sid, "eh": eh})
         elif op == 'data':
             st = {"op": "data", "sid": sid, "n": a, "es": es, "pad": -1}
-            if variety and a > 0 and unit == 1 and rng.random() < 0.3:
-                st["pad"] = rng.choice([0, 3])
+            if variety and (unit == 1 or a == 0) and rng.random() < 0.3:
+                st["pad"] = rng.choice([0, 3])      # a == 0: a frame that is all padding (RFC 7540 6.1 allows it)
             steps.append(st)
         elif op == 'rst':
             steps.append({"op": "rst", "sid": sid, "code": a})
